@@ -107,6 +107,9 @@ def build(case):
         else:
             raise KeyError(k)
         nodes.append(n)
+    # feedback edges: connected once the whole graph exists (the source of such an edge has no other downstream)
+    for (a, b) in case.get("fb", []):
+        nodes[a].connect(nodes[b])
     index = {id(n): i for i, n in enumerate(nodes)}
     for i, n in enumerate(nodes):
         _wrap(n, i, index, ctx)
@@ -250,8 +253,11 @@ def coq_kind(sp):
 
 
 def coq_graph(case):
-    return "[" + ";\n   ".join("{| nkind := %s; ups := %s |}" % (coq_kind(sp), coq_natlist(sp.get("ups", [])))
-                                for sp in case["nodes"]) + "]"
+    extra = {}
+    for (a, b) in case.get("fb", []):
+        extra.setdefault(b, []).append(a)
+    return "[" + ";\n   ".join("{| nkind := %s; ups := %s |}" % (coq_kind(sp), coq_natlist(sp.get("ups", []) + extra.get(i, [])))
+                                for i, sp in enumerate(case["nodes"])) + "]"
 
 
 def coq_events(case):
@@ -321,8 +327,9 @@ def common(ts):
 
 
 class Gen:
-    def __init__(self, rng, max_nodes=10, max_events=20, faults=False, allow=None, md_prob=0.6):
+    def __init__(self, rng, max_nodes=10, max_events=20, faults=False, allow=None, md_prob=0.6, feedback=0.2):
         self.r = rng
+        self.feedback = feedback
         self.max_nodes = max_nodes
         self.max_events = max_events
         self.faults = faults
@@ -385,8 +392,36 @@ class Gen:
             spec, ot = sp
             nodes.append(spec)
             types.append(ot)
+        # optional feedback edge guarded by unique: V -> map(mod k) -> unique -> back into an ancestor A of V
+        fb = []
+        if self.feedback and not self.faults and r.random() < self.feedback and not any(sp["k"] == "partition" for sp in nodes):
+            anc = {}
+            for i, sp in enumerate(nodes):
+                a = set()
+                for u in sp.get("ups", []):
+                    a |= anc[u] | {u}
+                anc[i] = a
+            single = ("map", "filter", "accumulate", "slice", "unique", "sliding_window", "union", "flatten", "pluck")
+            pairs = []
+            for v, sp in enumerate(nodes):
+                if types[v] != INT or sp["k"] in ("sink",):
+                    continue
+                for a in sorted(anc[v] | {v}):
+                    spa = nodes[a]
+                    if spa["k"] == "slice" and spa.get("end") is not None:
+                        continue        # a finite slice detaches itself from its upstreams; re-attaching it is another story
+                    if spa["k"] in single and all(types[u] == INT for u in spa.get("ups", [])):
+                        pairs.append((v, a))
+            if pairs:
+                v, a = r.choice(pairs)
+                nodes.append({"k": "map", "f": ['FModK', r.choice([2, 3])], "ups": [v]})
+                types.append(INT)
+                nodes.append({"k": "unique", "maxsize": None, "key": ['KeyId'], "hashable": True, "ups": [len(nodes) - 1]})
+                types.append(INT)
+                fb.append([len(nodes) - 1, a])
+        fb_src = {x for x, _ in fb}
         # sinks on leaves
-        has_down = set()
+        has_down = set(fb_src)
         for sp in nodes:
             for u in sp.get("ups", []):
                 has_down.add(u)
@@ -420,7 +455,10 @@ class Gen:
                     md.append([nrc, r.random() < 0.8])
                     nrc += 1
             events.append(["emit", s, val_to_json(v), md])
-        return {"nodes": nodes, "nrc": nrc, "events": events}
+        case = {"nodes": nodes, "nrc": nrc, "events": events}
+        if fb:
+            case["fb"] = fb
+        return case
 
     def wrap1(self, sym):
         if self.faults and self.r.random() < 0.35:
